@@ -28,7 +28,7 @@ ASSUMPTIONS = ["all files of the generated tree are selected (no test / ignored 
                "method names are ASCII"]
 
 CLASS_NAMES = ["StringUtil", "DateUtils", "OrderService", "Futile", "UserServiceImpl", "Foo", "Bar", "Helper", "UTILS",
-               "Order", "ServiceLocator", "Utility", "Repo"]
+               "Order", "ServiceLocator", "Utility", "Repo", "UserServiceUtils", "ServiceUtil", "UtilService"]
 WORDS = ["get", "set", "is", "find", "user", "order", "name", "by", "id", "the", "of", "to", "parse", "build", "all",
          "value", "list", "string", "update", "create", "with", "and", "account", "price", "total", "handle"]
 ACRONYMS = ["XML", "JSON", "URL", "ID", "HTTP", "DTO", "IO"]
